@@ -6,6 +6,7 @@ import (
 	"path/filepath"
 	"sync"
 
+	"github.com/pgavlin/dawn/internal/verifhook"
 	"github.com/pgavlin/dawn/label"
 	"github.com/pgavlin/dawn/util"
 	"go.starlark.net/starlark"
@@ -48,6 +49,7 @@ func (m *module) setLoading(other *module) {
 
 // done marks the receiver as done.
 func (m *module) done(data starlark.StringDict, err error) (starlark.StringDict, error) {
+	verifhook.Yield("module.done")
 	m.data, m.err = data, err
 
 	m.m.Lock()
@@ -61,6 +63,8 @@ func (m *module) done(data starlark.StringDict, err error) (starlark.StringDict,
 // wait waits for the receiver to finish loading. It returns an error if the module fails
 // to load or if the wait would result in a cyclic dependency.
 func (m *module) wait(waiter *module) (starlark.StringDict, error) {
+	verifhook.Block("module.wait")
+	defer verifhook.Unblock("module.wait")
 	m.m.Lock()
 	defer m.m.Unlock()
 
@@ -150,6 +154,7 @@ func (m *module) loadModule(proj *Project, rawLabel string) (starlark.StringDict
 
 // load executes the module's code.
 func (m *module) load(proj *Project) (starlark.StringDict, error) {
+	verifhook.Yield("module.load")
 	proj.events.ModuleLoading(m.label)
 
 	t, builtins, err := m.env(proj)
